@@ -44,6 +44,9 @@ CLAIMED = {
     'C16': ('DESIGN.md 4 C16', E1,
             'Metamorphic equivalence on each symbolic path: a history run with every datagram repeated dgap ms later (0..999) and the same history without repeats (identical random draws) produce identical multicast transmissions, browser callbacks and record-listener calls, and identical unicast replies except for a repeated QU reply; offsets, dgap, TTLs, sighting ages symbolic.',
             'Trusted: as C05; datagrams are opaque byte tokens mapped to prebuilt messages (the listener guard and dispatch are the real code); no loop-back of the host own multicast.'),
+    'C17': ('DESIGN.md 4 C17', E1,
+            'After the real AsyncZeroconf.async_close returns - requested at any instant 0..close_max ms into probing / announcing / queued answers / a deferred truncated query / browser start-up / a pending lookup - nothing is transmitted, no callback fires and no leftover timer raises during 3 h of virtual time and further datagrams; sockets closed, registry empty, goodbyes sent for everything registered at the request, second close a no-op.',
+            'Trusted: as C05 plus asyncio.gather / wait_for / timeout running on the fake loop. close() from a foreign thread is outside (threads are not symbolically executable).'),
     'C18': ('DESIGN.md 4 C18', E1,
             'Return instant, result, fields, no transmission when the cache suffices, QU-then-QM, omitted questions and query spacing of the real async_request coroutine for every timeout, every age / TTL of pre-cached records and every arrival offset / TTL of later records, over enumerated cache contents and arrival orders.',
             'Trusted: as C05. Timeout range 200..1000 ms when records are cached or arrive (200..10000 ms otherwise) to keep path trees exhaustible.'),
